@@ -248,6 +248,46 @@ Theorem C17_minimax_ballots : forall (pre post : Hybrids.rvotes) (p1 p2 p3 : ran
   minimax s (Hybrids.pairwise (pre ++ (p1 ++ IP w :: p2 ++ p3, x) :: post)) 1 = [Cand w].
 Proof. intros pre post p1 p2 p3 x w s. apply minimax_ballot_monotone. Qed.
 
+(* w LEAVES a shared rank {la, w, lb} for a place of its own directly above the rest of the rank: count(w, c) rises by x for every
+   member c of the rest, nothing else changes; for a well-formed profile with a non-empty dictionary the candidates stay the same set *)
+Theorem C17_ballot_leave_exact : forall (pre post : Hybrids.rvotes) (q p3 : ranked) (la lb : list C) (x : Z) (w a c : C),
+  pget0 (Hybrids.pairwise (pre ++ (q ++ IP w :: IS (la ++ lb) :: p3, x) :: post)) (a, c) =
+  pget0 (Hybrids.pairwise (pre ++ (q ++ IS (la ++ w :: lb) :: p3, x) :: post)) (a, c) + x * (Hybrids_proofs.cnt a [w] * Hybrids_proofs.cnt c (la ++ lb)).
+Proof. intros. apply pairwise_leave_exact. Qed.
+
+Theorem C17_ballot_leave_raises : forall (pre post : Hybrids.rvotes) (q p3 : ranked) (la lb : list C) (x : Z) (w : C),
+  Hybrids_proofs.wf_votes (pre ++ (q ++ IS (la ++ w :: lb) :: p3, x) :: post) = true ->
+  Hybrids.pairwise (pre ++ (q ++ IS (la ++ w :: lb) :: p3, x) :: post) <> [] ->
+  raises_s (Hybrids.pairwise (pre ++ (q ++ IS (la ++ w :: lb) :: p3, x) :: post))
+           (Hybrids.pairwise (pre ++ (q ++ IP w :: IS (la ++ lb) :: p3, x) :: post)) w.
+Proof. intros. apply pairwise_leave_raises; assumption. Qed.
+
+(* Copeland and minimax on ballots, the winner leaves a shared rank and moves further up past the items p2 *)
+Theorem C17_copeland_ballots_leave : forall (pre post : Hybrids.rvotes) (p1 p2 p3 : ranked) (la lb : list C) (x : Z) (w : C) (so : bool),
+  Hybrids_proofs.wf_votes (pre ++ (p1 ++ p2 ++ IS (la ++ w :: lb) :: p3, x) :: post) = true -> ~ In w (flatten p2) ->
+  copeland false (Hybrids.pairwise (pre ++ (p1 ++ p2 ++ IS (la ++ w :: lb) :: p3, x) :: post)) 1 = [Cand w] ->
+  copeland so (Hybrids.pairwise (pre ++ (p1 ++ IP w :: p2 ++ IS (la ++ lb) :: p3, x) :: post)) 1 = [Cand w].
+Proof.
+  intros pre post p1 p2 p3 la lb x w so Hwf Hp2 H. rewrite app_assoc in Hwf, H.
+  pose proof (copeland_ballot_leave pre post (p1 ++ p2) p3 la lb x w false Hwf H) as H1.
+  pose proof (wf_leave pre post (p1 ++ p2) p3 la lb x w Hwf) as Hwf1. rewrite <- app_assoc in H1, Hwf1.
+  apply (copeland_ballot_monotone pre post p1 p2 (IS (la ++ lb) :: p3) x w so); [| |exact Hp2|exact H1].
+  - intros r y Hin. apply (proj1 (Hybrids_proofs.wf_votes_spec _) Hwf1 r y). apply in_app_iff in Hin. apply in_app_iff.
+    destruct Hin as [Hin|Hin]; [left; exact Hin|right; right; exact Hin].
+  - apply (proj1 (Hybrids_proofs.wf_votes_spec _) Hwf1 (p1 ++ p2 ++ IP w :: IS (la ++ lb) :: p3) x). apply in_app_iff. right. left. reflexivity.
+Qed.
+
+Theorem C17_minimax_ballots_leave : forall (pre post : Hybrids.rvotes) (p1 p2 p3 : ranked) (la lb : list C) (x : Z) (w : C) (s : Condorcet.scorer),
+  Hybrids_proofs.wf_votes (pre ++ (p1 ++ p2 ++ IS (la ++ w :: lb) :: p3, x) :: post) = true -> ~ In w (flatten p2) ->
+  minimax s (Hybrids.pairwise (pre ++ (p1 ++ p2 ++ IS (la ++ w :: lb) :: p3, x) :: post)) 1 = [Cand w] ->
+  minimax s (Hybrids.pairwise (pre ++ (p1 ++ IP w :: p2 ++ IS (la ++ lb) :: p3, x) :: post)) 1 = [Cand w].
+Proof.
+  intros pre post p1 p2 p3 la lb x w s Hwf Hp2 H. rewrite app_assoc in Hwf, H.
+  pose proof (minimax_ballot_leave pre post (p1 ++ p2) p3 la lb x w s Hwf H) as H1.
+  pose proof (wf_leave pre post (p1 ++ p2) p3 la lb x w Hwf) as Hwf1. rewrite <- app_assoc in H1, Hwf1.
+  exact (minimax_ballot_monotone pre post p1 p2 (IS (la ++ lb) :: p3) x w s Hwf1 Hp2 H1).
+Qed.
+
 (* the candidate ORDER of the dictionary does change: (A,B,C) -> (A,C,B) lists the candidates A,B,C resp. A,C,B - so [raises]
    itself does not hold between the two dictionaries, [raises_s] does *)
 Example C17_ballot_raises_order :
@@ -651,3 +691,7 @@ Print Assumptions C17_bucklin_leave_shared.
 Print Assumptions C17_oklahoma_leave_shared.
 Print Assumptions C17_preference_addition_same_variants.
 Print Assumptions C17_preference_addition_leave_pair.
+Print Assumptions C17_ballot_leave_exact.
+Print Assumptions C17_ballot_leave_raises.
+Print Assumptions C17_copeland_ballots_leave.
+Print Assumptions C17_minimax_ballots_leave.
